@@ -513,7 +513,7 @@ package argmapper
 
 //@ ghost cachedOnce(f *Func) bool = f.once && f.onceResult != nil
 //@ func (*Func).callDirect
-//@   requires f.input != nil && argMap != nil
+//@   requires vsWF(f.input) && argMap != nil
 //@   requires [no-earlier-failure] failed == nil
 //@   requires [planning-runs-stand-ins-only] imp(planning, zeroFn(f.fn))
 //@   ensures  [cached-result-not-executed] imp(old(cachedOnce(f)), nexec == old(nexec) && f.execs == old(f.execs) && failed == old(failed) && result.out == old(f.onceResult.out) && result.buildErr == old(f.onceResult.buildErr) && f.onceResult == old(f.onceResult))
@@ -524,7 +524,7 @@ package argmapper
 //@   ensures  [once-memoises-every-first-result] imp(f.once && !old(cachedOnce(f)) && result.buildErr == nil, f.onceResult != nil && fresh(f.onceResult) && f.onceResult.out == result.out && f.onceResult.buildErr == nil)
 //@   ensures  [not-once-no-cache] imp(!f.once, f.onceResult == old(f.onceResult))
 //@   ensures  f.once == old(f.once) && f.fn == old(f.fn) && f.input == old(f.input) && f.output == old(f.output)
-//@   assigns  Func.onceResult, Func.execs, Result, structValue, valueVertex, typedArgVertex, []interface{}, []error, []reflect.Value, rvstore, rvfresh, nexec, failed
+//@   assigns  Func.onceResult, Func.execs, Result, structValue, valueVertex, typedArgVertex, []interface{}, []error, []reflect.Value, multierror.Error, rvstore, rvfresh, nexec, failed
 //@   modifies f
 //@   before "out := f.fn.Call(in)" assert [nothing-runs-after-a-failure] failed == nil
 //@   before "out := f.fn.Call(in)" assert [redefine-runs-no-user-code] imp(planning, zeroFn(f.fn))
@@ -536,3 +536,17 @@ package argmapper
 //@   loop 1 invariant imp(forall(j, int, imp(0 <= j && j < idx1, has(argMap, vhash(f.input.values[j])))), buildErr == nil)
 //@   loop 2 invariant f.onceResult == old(f.onceResult) && f.execs == old(f.execs) && nexec == old(nexec) && failed == old(failed) && buildErr == nil && f.once == old(f.once) && f.fn == old(f.fn) && f.input == old(f.input) && f.output == old(f.output)
 //@   loop 2 invariant forall(j, int, imp(0 <= j && j < len(f.input.values), has(argMap, vhash(f.input.values[j]))))
+
+// a value set as NewFunc builds it, as far as the call machinery relies on it
+//@ ghost vsWF(vs *ValueSet) bool = vs != nil && forall(j, int, imp(0 <= j && j < len(vs.values), vs.values[j] != nil))
+//@     && imp(vs.structType != nil, kindof(vs.structType) == 25 && forall(j, int, imp(0 <= j && j < len(vs.values), 0 <= vs.values[j].index && vs.values[j].index < numField(vs.structType))))
+//@     && imp(vs.structType == nil, len(vs.values) == 0)
+
+//@ func (*structValue).CallIn
+//@   requires v != nil && v.typ != nil && imp(v.typ.structType != nil, valid(v.value) && rtypeof(v.value) == v.typ.structType && kindof(v.typ.structType) == 25)
+//@   ensures  [no-inputs] imp(v.typ.structType == nil, len(result) == 0)
+//@   ensures  [struct-form] imp(v.typ.structType != nil && !v.typ.isLifted, len(result) == 1)
+//@   ensures  [lifted-form] imp(v.typ.structType != nil && v.typ.isLifted, len(result) == len(v.typ.typedValues))
+//@   ensures  len(result) == 0 || fresh(result)
+//@   assigns  []reflect.Value
+//@   modifies nothing
